@@ -44,33 +44,37 @@ def byteSliceToByteArray (T addr ty : Nat) (bsize : Nat → Nat) (data : List Na
       -- fall back to `NewArrayFromBatchData`; `T(v).Storable` is the identity
       ABatch.newWith T addr ty (fun v c => (v, c)) elements c
 
-/-- `e.(T)` then `byte(b)`: a reference (any non-`T` storable) is an `UnexpectedElementTypeError`. -/
-def elemByte (e : Elem) : Except BErr Nat :=
+/-- `b, ok := e.(T)` then `byte(b)`.  The type assertion looks at the DYNAMIC GO TYPE of the
+    stored element, which a model element (size and payload) does not carry: `isT e` says whether
+    the plain value `e` is of the caller's byte type `T`.  A reference (`SlabIDStorable`) never is;
+    neither is a plain value of any other type (audit a1, F9: the first version of this function
+    accepted every plain value). -/
+def elemByte (isT : Elem → Bool) (e : Elem) : Except BErr Nat :=
   match e.pay with
-  | .val b => .ok b
+  | .val b => if isT e then .ok b else .error .unexpectedElemType
   | .ref _ => .error .unexpectedElemType
 
 /-- The traversal loop of `ByteArrayToByteSlice`: the elements of `cur`, then follow `next`
     (`getArraySlab(storage, slab.next)` is a lookup among the leaves by slab ID). -/
-def collectFrom (all : List DataSlab) : (fuel : Nat) → DataSlab → Except BErr (List Nat)
+def collectFrom (isT : Elem → Bool) (all : List DataSlab) : (fuel : Nat) → DataSlab → Except BErr (List Nat)
   | 0, _ => .error .outOfFuel
   | fuel + 1, cur => do
-    let bs ← cur.elems.mapM elemByte
+    let bs ← cur.elems.mapM (elemByte isT)
     if cur.next = SlabID.undef then return bs
     else match all.find? (fun s => s.hdr.id == cur.next) with
       | none => .error (.arr .slabNotFound)
       | some nxt => do
-        let rest ← collectFrom all fuel nxt
+        let rest ← collectFrom isT all fuel nxt
         return bs ++ rest
 
-/-- `ByteArrayToByteSlice[T](array)` (`nil` is the empty list) -/
-def byteArrayToByteSlice (a : Arr) : Except BErr (List Nat) :=
+/-- `ByteArrayToByteSlice[T](array)` (`nil` is the empty list); `isT`: see `elemByte` -/
+def byteArrayToByteSlice (isT : Elem → Bool) (a : Arr) : Except BErr (List Nat) :=
   if a.count = 0 then .ok []
   else
     let ls := Arr.leaves a.d a.root
     match ls with          -- `firstArrayDataSlab`
     | [] => .error (.arr .slabNotFound)
-    | first :: _ => collectFrom ls (ls.length + 1) first
+    | first :: _ => collectFrom isT ls (ls.length + 1) first
 
 end Bytes
 end Atree
